@@ -249,7 +249,8 @@ class Cache:
 
         t1 = threading.get_ident()
 
-        def hooked_cache(checker_cls):
+        def hooked_cache(*checker_cls):
+            # (the key is the whole argument tuple of recursion_cache, whatever its arity)
             # functools.lru_cache semantics: on a miss the function body runs unlocked (a
             # switch point); if another thread stored the key meanwhile, the computed result
             # is returned but NOT stored
